@@ -742,6 +742,66 @@ func runC06(w *World, r *Report) {
 	shareRule(w, r, "C06.interrupts-all-collected", "waitAll returns only when nothing is outstanding, also when a collected task carries an error: a second interrupting node, or an interrupt-after node finishing later, is in the report and the checkpoint", 2, "C03", "C03.wait-all-drains")
 	shareRule(w, r, "C06.channel-state-restored-whole", "what a checkpoint holds of a channel (values, arrivals, the skipped mark) is all taken over on load: a node the run had decided not to run is not reported as an interrupt-before node after a resume", 8, "C05", "C05.channel-state")
 
+	r.Rule("C06.bundled-state-serializable", "the local state types of the bundled flows (the type a flow hands to WithGenLocalState: react, host multi-agent) are registered with the checkpoint serializer in their package and have exported fields only: an interrupt in or next to an exported agent graph writes that state into the checkpoint, and a caller cannot register an unexported type", 2)
+	{
+		// registered anywhere in the module's init functions
+		registered := map[*types.Named]bool{}
+		for _, fn := range w.RepoFuncs("flow", "compose", "internal/serialization", "schema") {
+			if !strings.HasPrefix(topFunc(fn).Name(), "init") {
+				continue
+			}
+			instrs(fn, func(in ssa.Instruction) {
+				c, ok := in.(ssa.CallInstruction)
+				if !ok {
+					return
+				}
+				f, ok := c.Common().Value.(*ssa.Function)
+				if !ok {
+					return
+				}
+				if nm := origin(f).Name(); nm != "GenericRegister" && nm != "RegisterSerializableType" {
+					return
+				}
+				for _, ta := range f.TypeArgs() {
+					if n := namedOf(ta); n != nil {
+						registered[n] = true
+					}
+				}
+			})
+		}
+		n := 0
+		for _, fn := range w.RepoFuncs("flow") {
+			instrs(fn, func(in ssa.Instruction) {
+				c, ok := in.(ssa.CallInstruction)
+				if !ok {
+					return
+				}
+				f, ok := c.Common().Value.(*ssa.Function)
+				if !ok || origin(f).Name() != "WithGenLocalState" || len(f.TypeArgs()) != 1 {
+					return
+				}
+				st := namedOf(f.TypeArgs()[0])
+				if st == nil {
+					return
+				}
+				n++
+				var unexp []string
+				if s, ok := st.Underlying().(*types.Struct); ok {
+					for i := 0; i < s.NumFields(); i++ {
+						if !s.Field(i).Exported() {
+							unexp = append(unexp, s.Field(i).Name())
+						}
+					}
+				}
+				r.Check(registered[st] && len(unexp) == 0, "C06.bundled-state-serializable", fmt.Sprintf("%s: local state type %s", w.fname(fn), types.TypeString(st, func(p *types.Package) string { return p.Name() })), c.Pos(), "registered in an init function, exported fields only",
+					fmt.Sprintf("registered=%v, unexported fields=%v: a checkpointed run that contains this flow's exported graph cannot be interrupted — any interrupt (a tool returning InterruptAndRerun, interrupt-before / after, an interrupt of a sibling node while the agent node holds state) fails with 'failed to set checkpoint: unknown type' instead of returning the interrupt, and the caller cannot register the unexported type; an unexported field would come back empty after the resume", registered[st], unexp))
+			})
+		}
+		if n < 2 {
+			undecidedf("C06.bundled-state-serializable: only %d WithGenLocalState calls found in flow/", n)
+		}
+	}
+
 	r.Rule("C06.sentinel-match", "InterruptAndRerun is matched with errors.Is (never ==) wherever the framework classifies a task error", 2)
 	sentinelMatchChecks(w, r, "C06.sentinel-match")
 	_ = strings.Join
